@@ -215,7 +215,14 @@ func decodeScalar(data []byte, oid int) interface{} {
 
 	// Date/Time
 	case OidDate:
-		return pgEpoch.AddDate(0, 0, int(i32(data, 0))).Format("2006-01-02")
+		days := i32(data, 0)
+		if days == math.MaxInt32 {
+			return "infinity"
+		}
+		if days == math.MinInt32 {
+			return "-infinity"
+		}
+		return pgEpoch.AddDate(0, 0, int(days)).Format("2006-01-02")
 	case OidTime:
 		us := i64(data, 0)
 		return fmt.Sprintf("%02d:%02d:%02d", us/3600e6, (us/60e6)%60, (us/1e6)%60)
